@@ -440,7 +440,7 @@ u_strings(uint64_t idx, void *arg)
     uint64_t total = 1;
     for (size_t i = 0; i < n; i++)
         total *= 10;
-    uint64_t units = n <= 1 ? 1 : n == 2 ? 10 : 100;
+    uint64_t units = n <= 1 ? 1 : n == 2 ? 10 : n <= 6 ? 100 : 1000;
     char s[12];
     uint64_t cnt = 0;
     for (uint64_t k = idx; k < total; k += units) {
@@ -644,15 +644,15 @@ harness_run(void)
     vh_unit("special", 0, u_special, NULL);
     for (uint64_t i = 0; i < 64; i++)
         vh_unit("trees", i, u_trees, NULL);
-    size_t maxlen = vh_tier ? 7 : 5;
+    size_t maxlen = vh_tier ? 8 : 5;
     for (size_t n = 0; n <= maxlen; n++) {
         char gen[32];
         snprintf(gen, sizeof gen, "strings-%zu", n);
-        uint64_t units = n <= 1 ? 1 : n == 2 ? 10 : 100;
+        uint64_t units = n <= 1 ? 1 : n == 2 ? 10 : n <= 6 ? 100 : 1000;
         for (uint64_t i = 0; i < units; i++)
             vh_unit(gen, i, u_strings, (void *)(intptr_t)n);
     }
-    for (uint64_t i = 0; i < 32; i++)
+    for (uint64_t i = 0; i < (vh_tier ? 400u : 32u); i++)
         vh_unit("random", i, u_random, NULL);
     static const char *req[] = { "trees rendered, parsed and compared", "trees: the empty list itself",
                                  "trees: empty list nested inside a list", "strings: reference reader accepts",
